@@ -1622,3 +1622,20 @@ VARIANTS.append({'id': 'r10fix-futiter-notifying', 'property': None, 'expect': [
         }""", """        self.recv.receiver.try_recv().ok()""")],
                  'note': 'try_iter of the futures receiver repaired: every element is received through the notifying try_recv'})
 
+
+# ---- round 11 (feature / bug-fix commits, second batch)
+MP = 'src/mpmc.rs'
+for (_id, _seed, _prop, _exp, _note) in [
+        ('r11-batch-recv-keeps-lost-copy', 'C01-r11', 'C01', ['W3s', 'W1s'], 'a batched receive with a protocol of its own (values copied before a lost position CAS stay in the output)'),
+        ('r11-soft-capacity-window', 'C02-r11', 'C02', ['P1h'], 'the window of the fullness test read from a run-time limit'),
+        ('r11-view-batch-one-tag', 'C04-r11', 'C04', ['W3s'], 'a batched view that checks only the newest slot tag'),
+        ('r11-batch-recv-pin-leak', 'C06-r11', 'C06', ['W3s', 'W1s'], 'a batched receive whose pin helper keeps the pin on the stale path'),
+        ('r11-zip-left-drops-one', 'C09-r11', 'C09', ['S7'], 'try_iter().zip(0..max) pulls one value more than it delivers'),
+        ('r11-sink-park-memo', 'C15-r11', 'C15', ['P7c'], 'the sink skips the registration when the handle parked in this wake-up round'),
+        ('r11-monitor-shares-queue', 'C19-r11', 'C19', ['W19'], 'a new handle type holds Arc<MultiQueue> and is auto Send + Sync')]:
+    VARIANTS.append({'id': _id, 'property': _prop, 'expect': _exp, 'edits': [], 'kind': 'violating',
+                     'patch': _os.path.join(_SEED, _seed, 'patch.diff'), 'note': _note})
+VARIANTS.append({'id': 'r11fix-zip-right', 'property': None, 'expect': [], 'kind': 'refactor', 'patch': _os.path.join(_SEED, 'C09-r11', 'patch.diff'),
+                 'edits': [E(BC, "buf.extend(self.try_iter().zip(0..max).map(|(val, _)| val));", "buf.extend((0..max).zip(self.try_iter()).map(|(_, val)| val));"),
+                           E(MP, "buf.extend(self.try_iter().zip(0..max).map(|(val, _)| val));", "buf.extend((0..max).zip(self.try_iter()).map(|(_, val)| val));")],
+                 'note': 'try_recv_many repaired: the counter is on the left of the zip, the receive iterator is only pulled when a value will be delivered'})
